@@ -70,6 +70,14 @@ pub struct World {
     pub contract: ContractId,
     pub height: u32,
     pub da_height: u64,
+    /// max_gas of the last generated huge-fee transaction (flag F_HUGEFEE)
+    pub huge_max_gas: Option<u64>,
+    /// non-mint transactions of the committed blocks, in their executed form
+    pub executed: Vec<Transaction>,
+    /// validate tampered variants of every produced block
+    pub tamper: bool,
+    /// dry-run requests before every block
+    pub dry: bool,
 }
 
 fn bytes32(rng: &mut Rng) -> [u8; 32] {
@@ -201,6 +209,10 @@ impl World {
             contract,
             height: 1,
             da_height: 0,
+            huge_max_gas: None,
+            executed: vec![],
+            tamper: false,
+            dry: false,
         }
     }
 
@@ -246,8 +258,42 @@ impl World {
         t.commit().unwrap();
     }
 
+    /// A minimal transaction paying almost u64::MAX of fee at a suitable gas price.
+    fn gen_huge_tx(&mut self, rng: &mut Rng) -> Option<Transaction> {
+        use fuel_core_types::fuel_tx::{field::*, Chargeable};
+        let ci = (0..self.coins.len()).find(|i| {
+            !self.coins[*i].used && self.coins[*i].amount > (1u64 << 63) && self.coins[*i].asset == self.assets[0]
+        })?;
+        let kc = self.coins[ci].clone();
+        self.coins[ci].used = true;
+        let mut b = TransactionBuilder::script(vec![], vec![]);
+        b.with_params(self.params.clone());
+        b.script_gas_limit(0);
+        b.max_fee_limit(kc.amount - rng.below(1000));
+        b.add_unsigned_coin_input(self.wallets[kc.wallet].0, kc.utxo, kc.amount, kc.asset, Default::default());
+        b.add_output(Output::change(self.wallets[rng.below(3) as usize].1, 0, self.assets[0]));
+        let script = b.finalize();
+        self.huge_max_gas = Some(script.max_gas(self.params.gas_costs(), self.params.fee_params()));
+        let _ = script.inputs();
+        let tx: Transaction = script.into();
+        self.txs.push(tx.clone());
+        Some(tx)
+    }
+
+    /// gas price at which a huge-fee transaction pays about 0.75 * 2^64
+    pub fn huge_price(&self) -> Option<u64> {
+        let mg = self.huge_max_gas?;
+        let factor = self.params.fee_params().gas_price_factor() as u128;
+        Some(((3u128 << 62) * factor / mg.max(1) as u128).min(u64::MAX as u128) as u64)
+    }
+
     /// A new script transaction over the believed-unspent coins and messages.
     pub fn gen_tx(&mut self, rng: &mut Rng, gas_price_hint: u64) -> Transaction {
+        if self.flags & F_HUGEFEE != 0 && rng.chance(2, 3) {
+            if let Some(tx) = self.gen_huge_tx(rng) {
+                return tx;
+            }
+        }
         let kind = match rng.below(12) {
             0 => 0,          // empty script
             1..=3 => 1,      // ret
